@@ -874,6 +874,48 @@ def run(ck: Check):
                 ck.violation(dict(clause="options-honoured", detector=W[w]["cls"], cause="callback-attached"),
                              dict(what="with a callback attached, compare(X, **options) does not return what the same detector without callbacks returns for these options", detector=W[w]["cls"], option=kw,
                                   without_callback=[float(r0.statistic), float(r0.p_value)], with_callback=[float(r1.statistic), float(r1.p_value)], ref=ref.tolist(), test=test.tolist()))
+    # ---------------- chi-square on INTEGER category codes that are negative or huge and sparse (-1 as a "missing" code, 2^40 as
+    # an id): the categories are labels, the result is chi2_contingency of the two count vectors whatever the labels are
+    # (deterministic); and every wrapper on READ-ONLY input arrays (np.frombuffer / memory maps are read-only): same result
+    # as on writable copies, and the caller's arrays are left as they were
+    codes_a = [0, 1, 1, 2, 0, 1, 2, 2, 2, 0, 1, 1] * 3
+    codes_b = [0, 0, 1, 2, 0, 0, 2, 0, 1, 0] * 3
+    for nm, mp in (("negative", {0: -1, 1: 0, 2: 7}), ("huge-sparse", {0: 3, 1: 2**40, 2: 2**41 + 5}), ("plain", {0: 0, 1: 1, 2: 2})):
+        ref = np.array([mp[c] for c in codes_a], dtype=np.int64)
+        test = np.array([mp[c] for c in codes_b], dtype=np.int64)
+        r = monitor(ck, "Chi", ref, test, {}, "int-codes/" + nm, seed=0)
+        ck.case(dict(detector="ChiSquareTest", kind="integer-codes", codes=nm, result=[jl(x) for x in r[1:]]), nontrivial=True, key=repr(("chi-codes", nm)))
+        ck.count("chi_integer_code_cases")
+    for w_ in ("AD", "CVM", "MWU", "Welch", "Kuiper"):
+        ref = np.array([prng.gauss(0, 1) for _ in range(11)])
+        test = np.array([prng.gauss(0.7, 1.2) for _ in range(9)])
+        ref0, test0 = ref.copy(), test.copy()
+        want = run_wrapper(w_, ref0.copy(), test0.copy(), {}, seed=7)
+        ref.setflags(write=False)
+        test.setflags(write=False)
+        got = run_wrapper(w_, ref, test, {}, seed=7)
+        ck.case(dict(kind="read-only-arrays", detector=W[w_]["cls"]), nontrivial=True, key=repr(("ro", w_)))
+        ck.count("read_only_array_cases")
+        if got[0] != want[0] or (got[0] == "ok" and not (arr_close(got[1], want[1]) and arr_close(got[2], want[2]))):
+            ck.violation(dict(clause="named-statistic", detector=W[w_]["cls"], regime="read-only-arrays"), dict(what="fit / compare on read-only arrays does not give the result obtained on writable copies of them", detector=W[w_]["cls"], read_only=[jl(x) for x in got], writable=[jl(x) for x in want], ref=jl(ref0), test=jl(test0)))
+        elif not (np.array_equal(ref, ref0) and np.array_equal(test, test0)):
+            ck.violation(dict(clause="inputs-untouched", detector=W[w_]["cls"]), dict(what="the caller's arrays were modified", detector=W[w_]["cls"]))
+    for w_ in ("Kuiper", "MWU"):
+        # writable, UNSORTED inputs: compare must leave the caller's test array (and its own reference) in the order given
+        ref = np.array([3.0, 1.0, 2.0, 5.0, 4.0, 0.5, 2.5])
+        test = np.array([9.0, 7.0, 8.0, 6.5, 7.5])
+        ref0, test0 = ref.copy(), test.copy()
+        try:
+            dd = det_cls(w_)()
+            dd.fit(X=ref)
+            dd.compare(X=test)
+            okx = np.array_equal(test, test0) and np.array_equal(ref, ref0) and np.array_equal(np.asarray(dd.X_ref), ref0)
+        except Exception as e:  # noqa: BLE001
+            okx = False
+        ck.case(dict(kind="inputs-left-in-order", detector=W[w_]["cls"]), nontrivial=True, key=repr(("order", w_)))
+        ck.count("inputs_left_in_order_cases")
+        if not okx:
+            ck.violation(dict(clause="inputs-untouched", detector=W[w_]["cls"], regime="unsorted"), dict(what="compare() reordered the caller's test array, the caller's reference array or the stored reference", detector=W[w_]["cls"]))
     # ---------------- forwarding: model's predicted call vs the call observed by the spy
     FOREIGN = ["X", "X_ref", "equal_var", "foo", "alternative", "method", "correction", "nan_policy", "midrank"]
     VALUES = ["two-sided", "less", "auto", "exact", "raise", "omit", True, False, None, 0, 3, 0.1, 0.5, "OBJ"]
